@@ -122,16 +122,23 @@ def explore(ctx):
         case = {"function": fn, "variableFeatures": vfeat, "lib": lib, "masters": n, "two_axes": two_axes, "font": jsonable(base),
                 "variable_fonts": ["VFFull: all sources", "VFWght: sources 0 and 2 (Width fixed at 100)"] if multi else None}
         tagmap = {a.name: a.tag for a in ds.axes}
+        wkw = {}
+        if i % 4 == 1:
+            # the other kern writer shipped with ufo2ft (its variable-kerning code is separate)
+            from ufo2ft.featureWriters.kernFeatureWriter2 import KernFeatureWriter as KernFeatureWriter2
+            from ufo2ft.featureWriters import MarkFeatureWriter, GdefFeatureWriter, CursFeatureWriter
+            wkw = {"featureWriters": [KernFeatureWriter2, MarkFeatureWriter, GdefFeatureWriter, CursFeatureWriter]}
+            case["kern_writer"] = "kernFeatureWriter2"
         try:
             if multi:
-                vfs = getattr(ufo2ft, fn)(ds, variableFeatures=vfeat)
+                vfs = getattr(ufo2ft, fn)(ds, variableFeatures=vfeat, **wkw)
                 targets = []
                 for vname, keep in (("VFFull", [0, 1, 2]), ("VFWght", [0, 2])):
                     b = io.BytesIO(); vfs[vname].save(b)
                     axes_in = [a.axisTag for a in vfs[vname]["fvar"].axes]
                     targets.append((vname, b.getvalue(), [(k, {tagmap[a]: v for a, v in locs[k].items() if tagmap[a] in axes_in}) for k in keep]))
             else:
-                vf = getattr(ufo2ft, fn)(ds, variableFeatures=vfeat)
+                vf = getattr(ufo2ft, fn)(ds, variableFeatures=vfeat, **wkw)
                 buf = io.BytesIO(); vf.save(buf)
                 targets = [("", buf.getvalue(), [(k, {tagmap[a]: v for a, v in loc.items()}) for k, loc in enumerate(locs)])]
             if fn.startswith("compileVariableTTF"):
